@@ -18,16 +18,47 @@ func racePass() {
 		ctx.Guard(false, "race harness not built (PREP did not run)")
 		return
 	}
-	cmd := exec.Command(bin)
 	maxLen, budget := "4", "12"
 	if ctx.Thorough() {
 		maxLen, budget = "6", "240"
 	}
-	cmd.Env = append(os.Environ(), "PATH="+stub+":"+os.Getenv("PATH"), "RACE_MAXLEN="+maxLen, "RACE_BUDGET_S="+budget,
-		"GORACE=halt_on_error=0 exitcode=0", "VERIF_JOB=", "GOMAXPROCS=8")
-	out, err := cmd.CombinedOutput()
-	text := string(out)
+	runOnce := func() (string, error) {
+		cmd := exec.Command(bin)
+		cmd.Env = append(os.Environ(), "PATH="+stub+":"+os.Getenv("PATH"), "RACE_MAXLEN="+maxLen, "RACE_BUDGET_S="+budget,
+			"GORACE=halt_on_error=0 exitcode=0", "VERIF_JOB=", "GOMAXPROCS=8")
+		out, err := cmd.CombinedOutput()
+		return string(out), err
+	}
+	// can this machine start the stand-in helper at all right now? (a process
+	// table that is full makes the driver report a missing helper)
+	probe := func() error {
+		_, err := exec.Command(stub+"/midicat", "version", "-s").Output()
+		return err
+	}
+	text, err := runOnce()
 	ctx.Eval()
+	if (err != nil || strings.Contains(text, "RACE-PASS-HANG")) && !strings.Contains(text, "WARNING: DATA RACE") {
+		// a crash or a hang of a free-running pass is only believed if it comes
+		// back: twice more, and only on a machine that can start processes
+		first := text
+		for attempt := 0; attempt < 2; attempt++ {
+			if perr := probe(); perr != nil {
+				ctx.NotExhaustive("race pass could not run: this machine cannot start the stand-in helper right now (" + perr.Error() + ")")
+				fmt.Println("race pass: skipped, the helper cannot be started:", perr)
+				return
+			}
+			text, err = runOnce()
+			ctx.Eval()
+			if err == nil && !strings.Contains(text, "RACE-PASS-HANG") {
+				tail := first
+				if len(tail) > 300 {
+					tail = tail[len(tail)-300:]
+				}
+				ctx.NotExhaustive("race pass: a first attempt died or hung and did not do so again (taken for a disturbance of the machine): " + strings.ReplaceAll(tail, "\n", " | "))
+				break
+			}
+		}
+	}
 	if strings.Contains(text, "RACE-PASS-HANG") {
 		i := strings.Index(text, "RACE-PASS-HANG")
 		line := text[i:]
